@@ -261,9 +261,12 @@ package hclwrite
 // InvItems(b): every attribute item of the body satisfies the attribute invariant.
 // verif:pred InvItems(b *Body) = forall k *node :: { has(b.items, k) } has(b.items, k) && typeis(k.content, ptr(Attribute)) ==> unbox(k.content, ptr(Attribute)) != nil && InvAttr(unbox(k.content, ptr(Attribute)))
 
+// (the name comparison is exact, byte for byte: an identifier has the name iff its token's bytes are
+// the bytes of the name - for every name, not only ASCII ones)
 // verif:func (*identifier).hasName
 //@ requires i.token != nil
 //@ pure
+//@ ensures exact: ret <==> (len(name) == len(i.token.Bytes) && (forall j int :: { strat(name, j) } 0 <= j && j < len(name) ==> strat(name, j) == i.token.Bytes[j]))
 
 // verif:func (*Body).GetAttribute
 //@ requires InvBody(b) && InvItems(b)
